@@ -6,6 +6,7 @@ import (
 	"encoding/json"
 	"fmt"
 	"testing"
+	"unicode/utf8"
 
 	"github.com/ipni/go-libipni/find/model"
 	"github.com/ipni/go-libipni/pcache"
@@ -141,7 +142,7 @@ func (f *fakeSource) Fetch(_ context.Context, pid peer.ID) (*model.ProviderInfo,
 	return nil, nil
 }
 func (f *fakeSource) FetchAll(context.Context) ([]*model.ProviderInfo, error) { return f.infos, nil }
-func (f *fakeSource) String() string                                           { return "fake" }
+func (f *fakeSource) String() string                                          { return "fake" }
 
 type result struct {
 	Ctx, MD []byte
@@ -224,12 +225,22 @@ func runRec(c recCase) pbt.Result {
 		if err := json.Unmarshal(b, info); err != nil {
 			return merge(res, pbt.Failf("unmarshal record: %v", err))
 		}
+		// a context ID that is valid text arrives unchanged (only byte strings that are not valid UTF-8 are
+		// altered by JSON itself)
+		if info.ExtendedProviders != nil {
+			for i, x := range info.ExtendedProviders.Contextual {
+				if i < len(c.Contextual) && utf8.Valid(c.Contextual[i].ContextID) && x.ContextID != string(c.Contextual[i].ContextID) {
+					return merge(res, pbt.Failf("the contextual set with context ID %q arrives from its JSON form with context ID %q: lookups for the published context ID no longer find it", c.Contextual[i].ContextID, x.ContextID))
+				}
+			}
+		}
 		// JSON turns empty lists and empty byte strings into nil/empty differently; the
 		// specification works on what the source delivers, so rebuild the case view from it.
 		c = reread(c, info)
 	}
 	res.NonTrivial = c.HasExt && ((ctxHit && len(c.Chain.Providers) > 0) || mismatch)
-	pc, err := pcache.New(pcache.WithSource(&fakeSource{infos: []*model.ProviderInfo{info}}), pcache.WithPreload(true), pcache.WithRefreshInterval(0))
+	src := &fakeSource{infos: []*model.ProviderInfo{info}}
+	pc, err := pcache.New(pcache.WithSource(src), pcache.WithPreload(true), pcache.WithRefreshInterval(0))
 	if err != nil {
 		return merge(res, pbt.Failf("pcache.New: %v", err))
 	}
@@ -246,6 +257,27 @@ func runRec(c recCase) pbt.Result {
 		g := got[i]
 		if g.Provider == nil || !bytes.Equal(g.ContextID, want[i].Ctx) || !bytes.Equal(g.Metadata, want[i].MD) || g.Provider.ID != want[i].ID || fmt.Sprint(g.Provider.Addrs) != want[i].Addrs {
 			return merge(res, pbt.Failf("GetResults result %d differs\n got: %s\nwant: %s\ncase: %+v", i, render(got), renderWant(want), c))
+		}
+	}
+	if c.HasExt {
+		// the provider publishes a newer advertisement without any extended providers: after the refresh the
+		// expansion follows the record now current
+		src.infos = []*model.ProviderInfo{{AddrInfo: info.AddrInfo, LastAdvertisementTime: "2031-05-05T05:05:05Z"}}
+		if err := pc.Refresh(context.Background()); err != nil {
+			return merge(res, pbt.Failf("Refresh: %v", err))
+		}
+		c2 := c
+		c2.HasExt = false
+		got2, err := pc.GetResults(context.Background(), addrInfo(0).ID, c.LookupCtx, c.LookupMD)
+		want2 := spec(c2)
+		if err != nil || len(got2) != len(want2) {
+			return merge(res, pbt.Failf("after a refresh that delivered a newer record without extended providers GetResults returned %d results (err %v), specification %d\n got: %s\nwant: %s", len(got2), err, len(want2), render(got2), renderWant(want2)))
+		}
+		for i := range got2 {
+			g := got2[i]
+			if g.Provider == nil || !bytes.Equal(g.Metadata, want2[i].MD) || g.Provider.ID != want2[i].ID {
+				return merge(res, pbt.Failf("after the refresh GetResults result %d differs\n got: %s\nwant: %s", i, render(got2), renderWant(want2)))
+			}
 		}
 	}
 	return res
@@ -307,7 +339,7 @@ func merge(base, f pbt.Result) pbt.Result {
 
 func TestC17_Expand(t *testing.T) {
 	pbt.Run(t, pbt.Config{Prop: "C17", Unit: "TestC17_Expand",
-		Rule: "provider records with 0..4 chain-level and 0..3 contextual sets (0..3 providers each, override on/off), per-entry metadata nil / empty / equal to the looked-up metadata / own, main provider present or absent in either list, metadata lists nil / shorter / equal / longer than provider lists, looked-up context hitting or missing a set, looked-up metadata nil or bytes, optionally passed through a JSON round trip; served by a fake ProviderSource to a real ProviderCache; oracle: element-wise equality with a specification function written from the statement, any panic is a violation. Non-trivial: a contextual set matches and chain-level entries exist, or a list-length mismatch; distinct by case.",
+		Rule:        "provider records with 0..4 chain-level and 0..3 contextual sets (0..3 providers each, override on/off), per-entry metadata nil / empty / equal to the looked-up metadata / own, main provider present or absent in either list, metadata lists nil / shorter / equal / longer than provider lists, looked-up context hitting or missing a set, looked-up metadata nil or bytes, optionally passed through a JSON round trip; served by a fake ProviderSource to a real ProviderCache; oracle: element-wise equality with a specification function written from the statement, any panic is a violation; context IDs that are valid text survive the JSON form unchanged; after a refresh that delivers a newer record without extended providers the expansion follows that record. Non-trivial: a contextual set matches and chain-level entries exist, or a list-length mismatch; distinct by case.",
 		Assumptions: []string{"contextual sets have distinct context IDs", "context ID strings that are not valid UTF-8 are re-read from the JSON round trip before the specification is applied"},
 	}, genRec, runRec)
 }
